@@ -43,7 +43,7 @@ def run(ctx, clause, scenarios, nontrivial=nontrivial_default, names_for=None, w
     for o, v in zip(obs, verdicts):
         ctx.traces += 1
         sc = by_id.get(o["sc"]["id"])
-        ctx.case((o["sc"]["id"], o["driver"]), nontrivial(sc) if sc else True)
+        ctx.case((o["sc"]["id"], o["driver"], o["run"]), nontrivial(sc) if sc else True)
         if (o["exit"] == 0) != v["expectOk"] and o["exit"] >= 0 and "point" not in o["_run"]:
             ctx.drift.append({"id": v["id"], "driver": v["driver"], "exit": o["exit"], "model_expect_ok": v["expectOk"],
                               "stderr": o["_run"]["stderr"][-200:]})
